@@ -117,6 +117,18 @@ func (ex *Exec) envFor(fr *Frame, st *State) *Env {
 		}
 	}
 	env.old = ex.oldEnv
+	env.deref = func(ref string) (TV, bool) {
+		var id int
+		if n, _ := fmt.Sscanf(ref, "cellref!%d", &id); n != 1 {
+			return TV{}, false
+		}
+		for c, content := range st.cells {
+			if c.id == id {
+				return TV{content, ex.u.SortOf(c.typ)}, true
+			}
+		}
+		return TV{}, false
+	}
 	return env
 }
 
